@@ -46,6 +46,9 @@ type SpecEnv struct {
 	frame    *Frame
 	oldAlloc Term
 	bound    []string // SMT names of the quantified variables in scope
+	resolverFirst bool          // loop invariants: source names denote current values
+	inOld         bool          // inside old(): parameter names denote entry values
+	quantNames    map[string]bool // spec-level names bound by quantifiers / macros (shadow source names)
 }
 
 func (e *SpecEnv) child() *SpecEnv {
@@ -347,6 +350,15 @@ func (e *SpecEnv) toBytes(v SVal) Term {
 }
 
 func (e *SpecEnv) lookupName(name string) (SVal, bool) {
+	// inside function bodies (loop invariants) a source name denotes the variable's CURRENT
+	// value; old(name) denotes a parameter's value at entry
+	if e.resolverFirst && !e.inOld && e.resolver != nil {
+		if _, isQuant := e.quantNames[name]; !isQuant {
+			if v, ok := e.resolver(name); ok {
+				return v, true
+			}
+		}
+	}
 	if v, ok := e.names[name]; ok {
 		return v, true
 	}
@@ -392,6 +404,7 @@ func (e *SpecEnv) eval(x SExpr) SVal {
 		}
 		c := *e
 		c.st = e.old
+		c.inOld = true
 		return c.eval(n.X)
 	case *SUnary:
 		v := e.eval(n.X)
@@ -421,6 +434,11 @@ func (e *SpecEnv) eval(x SExpr) SVal {
 			binds = append(binds, fmt.Sprintf("(%s %s)", name, ty.Sort))
 			c.names[qv.Name] = SVal{name, ty}
 			c.bound = append(append([]string{}, c.bound...), name)
+			qn := map[string]bool{qv.Name: true}
+			for k := range c.quantNames {
+				qn[k] = true
+			}
+			c.quantNames = qn
 		}
 		body := c.evalBool(n.Body)
 		q := "exists"
@@ -760,6 +778,16 @@ func (e *SpecEnv) evalCall(n *SCall) SVal {
 		dh := vc.heapVar(dom)
 		k := arg(1)
 		return SVal{andT(fmt.Sprintf("(not (= %s 0))", m.T), sel(sel(vc.get(e.st, dh), m.T), k.T)), stBool}
+	case "frame_elems":
+		// frame_elems(s): every backing array other than s's is as it was at function entry
+		v := arg(0)
+		sl, ok := goUnder(v.Ty).(*types.Slice)
+		if !ok || e.old == nil || e.st == nil {
+			specFail("frame_elems(slice) not available here")
+		}
+		h := vc.heapVar(vc.sorts.elemHeap(sl.Elem()))
+		return SVal{fmt.Sprintf("(forall ((r Int)) (! (=> (not (= r %s)) (= (select %s r) (select %s r))) :pattern ((select %s r))))",
+			sref(v.T), vc.get(e.st, h), vc.get(e.old, h), vc.get(e.st, h)), stBool}
 	case "isold":
 		// isold(p): reference p existed when the function was entered (or the call was made)
 		if e.oldAlloc == "" {
